@@ -45,6 +45,7 @@ func main() {
 	seed := flag.Int64("seed", 1, "seed")
 	roles := flag.String("roles", "none,R,RW,Admin,SysAdmin", "roles handled by this process")
 	kinds := flag.String("kinds", "session,token", "authentication kinds")
+	tokenSels := flag.String("tokensels", "own,other,system,none", "database selections exercised with token authentication")
 	flag.BoolVar(&fullPrepare, "fullprepare", false, "run the administrator-side preparation of a request also in cells whose session is invalid")
 	flag.Parse()
 	if *dir == "" {
@@ -76,7 +77,7 @@ func main() {
 		w.loadPolicy(*policy)
 		w.openTrace(*tracef)
 		w.setup()
-		w.runMatrix(strings.Split(*roles, ","), strings.Split(*kinds, ","))
+		w.runMatrix(strings.Split(*roles, ","), strings.Split(*kinds, ","), strings.Split(*tokenSels, ","))
 	case "hist":
 		if *policy == "" || *tracef == "" || *histf == "" {
 			vh.Fatalf("-policy, -hist and -trace are required")
@@ -160,7 +161,7 @@ func newWorld(dir string, seed int64, res *vh.Result) *world {
 	return w
 }
 
-const sessionTimeout = 1500 * time.Millisecond
+const sessionTimeout = 2500 * time.Millisecond
 
 func (w *world) stop() {
 	w.conn.Close()
